@@ -102,9 +102,10 @@ func ruleLookupTable(c *Ctx) {
 		}
 		// consultations in source order
 		type consult struct {
-			comp string
-			call *ast.CallExpr
-			lhs  []types.Object
+			comp     string
+			call     *ast.CallExpr
+			lhs      []types.Object
+			filtered bool // made through a helper that already lets the not-found case fall through
 		}
 		var consults []consult
 		indexed := map[string]bool{}    // recv path (joined) indexed by the token
@@ -124,7 +125,21 @@ func ruleLookupTable(c *Ctx) {
 										lhs = append(lhs, c.objOf(id))
 									}
 								}
-								consults = append(consults, consult{p.Steps[0], call, lhs})
+								consults = append(consults, consult{p.Steps[0], call, lhs, false})
+							}
+						} else if okW, filt := c.lookupWrapper(call, formats); okW && len(call.Args) == 2 && isTok(call.Args[1]) {
+							if p, ok := c.apath(call.Args[0]); ok && p.Root == recv && len(p.Steps) > 0 {
+								var lhs []types.Object
+								for _, l := range x.Lhs {
+									if id, ok := l.(*ast.Ident); ok {
+										lhs = append(lhs, c.objOf(id))
+									}
+								}
+								// normalise to the (result, kind, err) shape used below
+								if len(lhs) == 2 {
+									lhs = []types.Object{lhs[0], nil, lhs[1]}
+								}
+								consults = append(consults, consult{p.Steps[0], call, lhs, filt})
 							}
 						}
 						if c.isPkgFunc(call, "strconv", "Atoi") && len(call.Args) == 1 && isTok(call.Args[0]) {
@@ -294,6 +309,9 @@ func ruleLookupTable(c *Ctx) {
 					return
 				}
 				returnsErr := len(rs.Results) == 2 && !isNilIdent(c, rs.Results[1])
+				if returnsErr && cn.filtered {
+					return // the helper already swallowed the not-found case: any error left is a real one
+				}
 				if returnsErr {
 					cst, neg := c.notFoundTest(guard.Cond)
 					switch {
@@ -371,6 +389,25 @@ func (c *Ctx) notFoundTest(cond ast.Expr) (string, bool) {
 				if s, ok := c.constString(x.Args[1]); ok {
 					cst, neg = s, negated
 				}
+				return
+			}
+			// a package predicate over the error: its non-constant answers decide
+			if g, ok := c.callee(x).(*types.Func); ok && g.Pkg() == c.Types {
+				gfd := c.decl(g)
+				if gfd == nil || gfd.Body == nil {
+					return
+				}
+				ast.Inspect(gfd.Body, func(n ast.Node) bool {
+					rs, ok := n.(*ast.ReturnStmt)
+					if !ok || len(rs.Results) != 1 {
+						return true
+					}
+					if tv, ok := c.Info.Types[rs.Results[0]]; ok && tv.Value != nil {
+						return true // constant answer (e.g. false for a nil error)
+					}
+					rec(rs.Results[0], negated)
+					return true
+				})
 			}
 		}
 	}
@@ -407,4 +444,68 @@ func (c *Ctx) walkWithIfStack(root ast.Node, visit func(n ast.Node, ifs []*ast.I
 		})
 	}
 	rec(root)
+}
+
+// lookupWrapper recognises a package helper (part, token) that consults jsonpointer.GetForToken on its
+// parameters; filtered reports whether the helper itself lets the not-found case through as (r, nil).
+func (c *Ctx) lookupWrapper(call *ast.CallExpr, formats []string) (isWrapper, filtered bool) {
+	g, ok := c.callee(call).(*types.Func)
+	if !ok || g.Pkg() != c.Types {
+		return false, false
+	}
+	gfd := c.decl(g)
+	if gfd == nil || gfd.Body == nil || gfd.Recv != nil {
+		return false, false
+	}
+	p0, p1 := c.paramObj(gfd, 0), c.paramObj(gfd, 1)
+	if p0 == nil || p1 == nil {
+		return false, false
+	}
+	var inner *ast.CallExpr
+	ast.Inspect(gfd.Body, func(n ast.Node) bool {
+		if cc, ok := n.(*ast.CallExpr); ok && c.isPkgFunc(cc, "github.com/go-openapi/jsonpointer", "GetForToken") && len(cc.Args) == 2 {
+			a0, ok0 := unparen(cc.Args[0]).(*ast.Ident)
+			a1, ok1 := unparen(cc.Args[1]).(*ast.Ident)
+			if ok0 && ok1 && c.objOf(a0) == p0 && c.objOf(a1) == p1 {
+				inner = cc
+			}
+		}
+		return true
+	})
+	if inner == nil {
+		return false, false
+	}
+	c.saw(c.funcName(gfd))
+	// filtered: every error return after the consultation is guarded by the negated not-found test
+	filtered = true
+	nerr := 0
+	c.walkWithIfStack(gfd.Body, func(nd ast.Node, ifs []*ast.IfStmt) {
+		rs, ok := nd.(*ast.ReturnStmt)
+		if !ok || rs.Pos() < inner.End() || len(rs.Results) == 0 {
+			return
+		}
+		last := rs.Results[len(rs.Results)-1]
+		if isNilIdent(c, last) {
+			return
+		}
+		nerr++
+		okGuard := false
+		for _, i := range ifs {
+			cst, neg := c.notFoundTest(i.Cond)
+			if cst != "" && neg {
+				for _, f := range formats {
+					if strings.HasPrefix(f, cst) {
+						okGuard = true
+					}
+				}
+			}
+		}
+		if !okGuard {
+			filtered = false
+		}
+	})
+	if nerr == 0 {
+		filtered = false
+	}
+	return true, filtered
 }
